@@ -75,8 +75,9 @@ EXPLANATION = (
     "itself for it - read from libcst/_nodes/base.py on every run), may be "
     "instantiated anywhere, and `.visit(<such an instance>)` is not a "
     "rewrite.  R20.5: merge_files_src writes only the "
-    "merge_sources result, only to the py path it read, only in OVERWRITE "
-    "mode.  R20.6: nodes rebuilt by the filters - in a callback or in a helper "
+    "merge_sources result, only to the py path it read (opened with mode "
+    "\"w\": appending or updating in place would keep the old text), only in "
+    "OVERWRITE mode.  R20.6: nodes rebuilt by the filters - in a callback or in a helper "
     "method a callback reaches, typed as for R20.3, once per typing of the "
     "helper's parameters - get arguments of the "
     "declared field types (no Assign without value); positional arguments "
@@ -1784,7 +1785,28 @@ def r20_4(ctx):
   # a helper function of the pipeline holds visits that were judged by what
   # the run of merge_sources did with them: it may not be entered from
   # anywhere else
+  def read_only_where_it_stands(c):
+    try:
+      vs = _visit_step(m, rd_of(c), ("visit", c))
+    except AnalysisError:
+      return False
+    return vs is not None and m.kinds[vs[0]] == "visitor"
+  judged = {c for c in by_call if c is not None and not read_only_where_it_stands(c)} | {
+      o.ctor for o in it.created if o.ctor is not None and m.kinds.get(o.cname) == "transformer"}
+  sensitive = set()
+  grew = True
+  while grew:
+    grew = False
+    for fn in it.entered:
+      if fn not in sensitive and any(
+          n in judged or (isinstance(n, ast.Call) and isinstance(n.func, ast.Name)
+                          and mod.functions.get(n.func.id) in sensitive)
+          for n in ast.walk(fn)):
+        sensitive.add(fn)
+        grew = True
   for fn in it.entered:
+    if fn not in sensitive:
+      continue      # holds no visit and makes no transformer: harmless anywhere
     for n in ast.walk(mod.tree):
       if isinstance(n, ast.Name) and n.id == fn.name and isinstance(n.ctx, ast.Load):
         par = mod.parent.get(n)
@@ -1878,6 +1900,10 @@ def r20_5(ctx):
     if set(mode) & set("wax+"):
       writers.append(c)
   w = _one(writers, "open-for-writing in merge_files_src")
+  w_mode = try_fold(w.args[1]) if len(w.args) > 1 else try_fold(
+      next((k.value for k in w.keywords if k.arg == "mode"), ast.Constant("r")))
+  # only "w" replaces the text of the file by what is written
+  truncates = "w" in w_mode and not set(w_mode) & set("ax+")
   target_ok = isinstance(w.args[0], ast.Name) and rd.defs_of(w.args[0]) == {p_path}
   wi = mod.parent.get(w)
   writes = []
@@ -1907,14 +1933,15 @@ def r20_5(ctx):
         if isinstance(a, ast.Name) and rd.defs_of(a) == {p_mode} \
             and dotted(b) == "Mode.OVERWRITE":
           guard_ok = True
-  ctx.check(target_ok and content_ok and guard_ok,
+  ctx.check(target_ok and content_ok and guard_ok and truncates,
             "merge_files_src:writes-merged-text-to-py_path-on-overwrite", MP,
             w.lineno,
-            f"the only file written must be {p_path.name}, with exactly the "
+            f"the only file written must be {p_path.name}, opened with mode \"w\" (the "
+            "merged text replaces the old one), with exactly the "
             "merge_sources result, under mode == Mode.OVERWRITE; found target "
-            f"{src(w.args[0])}, content {[src(c.args[0]) for c in writes if c.args]}, "
-            f"guards {g}",
-            {"target": src(w.args[0]), "guards": g})
+            f"{src(w.args[0])} opened {w_mode!r}, content "
+            f"{[src(c.args[0]) for c in writes if c.args]}, guards {g}",
+            {"target": src(w.args[0]), "open_mode": w_mode, "guards": g})
   # backup copies the original before it is overwritten
   copies = [c for c in calls_in(fn) if (dotted(c.func) or "").startswith("shutil.")]
   ok = True
@@ -2198,10 +2225,8 @@ def r20_7(ctx):
       bound = bind_args(c, pred, skip_self=not _is_static(pred, mod))
       if len(bound) == 1 and loc.text(next(iter(bound.values()))) in chains:
         pcalls.append(c)
-      else:
-        raise AnalysisError(
-            f"{fn.name}: predicate call `{src(c)[:60]}` is not applied to the "
-            f"node's own annotation ({sorted(chains)[0]})")
+      # (any other helper call is a test of unknown outcome: a return that
+      # depends on it is not decided, see `opaque` below)
     preds = {dotted(c.func) for c in pcalls}
     if len(preds) > 1:
       raise AnalysisError(f"{fn.name}: several predicates {sorted(preds)}")
@@ -2337,8 +2362,9 @@ def _any_predicate(ctx):
   inter = _Inter(model, mod, _ANY_FILTER, methods, m.kinds[_ANY_FILTER])
   preds, found = set(), []
   for name, fn in methods.items():
-    if _method_env(model, mod, fn) is None:
-      continue
+    if name not in {f"leave_{X}" for X in _ANNOTATED_FIELD} or \
+        _method_env(model, mod, fn) is None:
+      continue      # only the callbacks that see a return / variable annotation
     for c in calls_in(fn):
       h = inter.helper_of(c, fn)
       if h is not None:
@@ -2364,7 +2390,13 @@ def _recognised_spellings(ctx, asked):
   m = _model(ctx)
   pred = _any_predicate(ctx)
   it = mx._Interp(ctx)
-  obj = it.new(_ANY_FILTER, [], {})
+  obj = None
+  try:        # the instance merge_sources itself makes (constructor arguments and all)
+    obj = next((o for o in _pipeline(ctx).it.created if o.cname == _ANY_FILTER), None)
+  except AnalysisError:
+    pass
+  if obj is None:
+    obj = it.new(_ANY_FILTER, [], {})
   memo = {}
 
   def holds(text):
@@ -2837,6 +2869,10 @@ VARIANTS = [
     _v("texts-swapped", "R20.5", "merge_sources(py=py_src, pyi=pyi_src)",
        "merge_sources(py=pyi_src, pyi=py_src)"),
     _v("backup-after-overwrite", "R20.5", _WRITE_OLD, _WRITE_BACKUP_LATE),
+    _v("merged-text-appended-to-the-old-text", "R20.5",
+       '    with open(py_path, "w") as f:', '    with open(py_path, "a") as f:'),
+    _v("twin-file-opened-in-text-mode-by-keyword", "R20.5",
+       '    with open(py_path, "w") as f:', '    with open(py_path, mode="wt") as f:', "silent"),
     _v("twin-guard-operands-reordered", "R20.5",
        "  elif mode == Mode.OVERWRITE and changed:",
        "  elif changed and Mode.OVERWRITE == mode:", "silent"),
@@ -3004,4 +3040,21 @@ VARIANTS += [
        "C20-r3/defect_quoted_gives_the_node_as_second_field"),
     _p("r3-loop-collects-bare-expressions-as-bases", "R20.6",
        "C20-r3/defect_kept_bases_hold_bare_expressions"),
+    # further shapes of the same kinds (written for this suite)
+    _p("twin-predicate-as-a-module-level-function", "R20.3",
+       "C20-r1/twin_predicate_as_module_function", "silent"),
+    _p("module-level-predicate-given-the-annotation-wrapper", "R20.3",
+       "C20-r1/defect_module_function_predicate_given_the_wrapper"),
+    _p("module-level-predicate-with-a-frozenset-constant-forgets-never", "R20.8",
+       "C20-r1/defect_module_function_predicate_forgets_never"),
+    _p("twin-callback-inherited-from-a-mixin", "R20.7", "C20-r1/twin_callback_in_a_mixin",
+       "silent"),
+    _p("twin-filters-collected-in-a-list-grown-in-place", "R20.1",
+       "C20-r2/twin_filters_collected_in_a_list", "silent"),
+    _p("list-of-filters-grown-under-a-run-time-test", "R20.1",
+       "C20-r2/defect_list_of_filters_grown_conditionally", "error"),
+    _p("twin-read-only-helper-of-the-pipeline-also-used-elsewhere", "R20.4",
+       "C20-r2/twin_class_names_helper_also_used_for_a_report", "silent"),
+    _p("twin-merge-sources-delegates-to-a-helper", "R20.1",
+       "C20-r2/twin_merge_sources_delegates", "silent"),
 ]
